@@ -1,6 +1,7 @@
 (* C01 - discovered constraints are satisfied by the data they came from. *)
 From Coq Require Import ZArith List Bool.
-From Tdda Require Import Base.Sexp Base.Str Generated.Consts Constraints.Model Constraints.ModelProofs.
+From Tdda Require Import Base.Sexp Base.Str Generated.Consts Constraints.Model Constraints.ModelProofs
+  Constraints.Detect Constraints.ClosureDetect.
 Import ListNotations.
 Open Scope Z_scope.
 
@@ -28,3 +29,29 @@ Example C01_inhabited :
   | None => False
   end.
 Proof. vm_compute. split; reflexivity. Qed.
+
+(* ... and detection on it reports no failing records: for a whole dataset (any number of fields, any number
+   of records) whose constraints are those discovered from its own columns, no flag column is produced, every
+   record has n_failures = 0, no record fails and all of them pass; so no output file is written. *)
+Theorem C01_detect_no_failing_records : forall p fields nrows, Forall self_discovered fields ->
+  let d := detect p fields nrows in
+  d_columns d = [] /\ d_nfailures d = repeat 0 nrows /\ d_failing d = 0 /\ d_passing d = Z.of_nat nrows.
+Proof. exact closure_detect_proof. Qed.
+Print Assumptions C01_detect_no_failing_records.
+
+Theorem C01_detect_writes_no_file : forall p fields nrows existed, Forall self_discovered fields ->
+  outfile_after existed (d_failing (detect p fields nrows)) = false.
+Proof. exact closure_detect_no_file_proof. Qed.
+Print Assumptions C01_detect_writes_no_file.
+
+(* the hypothesis is met by a concrete column (with nulls and both infinities) *)
+Example C01_self_discovered_inhabited :
+  let c := {| c_type := TReal; c_cells := [Some VNegInf; None; Some (VNum 5); Some VPosInf] |} in
+  exists ks, self_discovered (c, ks) /\ length ks = 4%nat.
+Proof.
+  cbv zeta. eexists. split; [split; [split|exists None; split; [discriminate|vm_compute; reflexivity]]|reflexivity].
+  - intros u v Hu Hv. cbn in Hu, Hv.
+    repeat match goal with H : _ \/ _ |- _ => destruct H as [<-|H] end; try reflexivity; contradiction.
+  - intros _ v Hv. cbn in Hv.
+    repeat match goal with H : _ \/ _ |- _ => destruct H as [<-|H] end; try reflexivity; contradiction.
+Qed.
